@@ -40,6 +40,8 @@ type RunSpec struct {
 	PruneIf       bool              `json:"prune_branches"`
 	ExecBudgetS   int               `json:"exec_budget_s"`
 	Shares        bool              `json:"share_abstraction"`
+	MaxIters      int               `json:"max_iters"`
+	UnwindPolicy  string            `json:"unwind_policy"` // "obligation:<id>": a loop that can exceed the bound is a violation (non-termination)
 	ExpectSat     []string          `json:"expect_sat"` // obligation ids that are informational witnesses
 	Informational []string          `json:"informational"`
 }
@@ -80,6 +82,7 @@ type Finding struct {
 	Harness    string            `json:"harness,omitempty"`
 	Args       []int             `json:"args,omitempty"`
 	Values     map[string]string `json:"values,omitempty"`
+	Signal     string            `json:"native_signal,omitempty"` // e.g. "timeout": how the witness shows natively
 }
 
 type FindingsFile struct {
@@ -346,7 +349,7 @@ func mainCheck(a []string) int {
 		}
 		if f.Harness != "" {
 			fails, _, out, err := nativeReplay(&spec, f.Harness, f.Args, f.Values, nil)
-			if err == nil && contains(fails, f.Obligation) {
+			if err == nil && (contains(fails, f.Obligation) || (f.Signal != "" && contains(fails, f.Signal))) {
 				fmt.Printf("KNOWN-FINDING: property=%s %s: %s\n", f.Property, f.ID, f.What)
 			} else {
 				fmt.Printf("STALE known finding %s: stored witness no longer fails (%v) %s\n", f.ID, err, tail(out, 300))
@@ -464,6 +467,9 @@ func runInstance(ld *sym.Loaded, spec *Spec, rs *RunSpec, args []int64, known ma
 	}
 	if rs.Unwind > 0 {
 		e.Unwind = rs.Unwind
+	}
+	if rs.MaxIters > 0 {
+		e.MaxIters = rs.MaxIters
 	}
 	t0 := time.Now()
 	// go/ssa lazily builds some functions; serialise execution start
@@ -673,8 +679,27 @@ func runInstance(ld *sym.Loaded, spec *Spec, rs *RunSpec, args []int64, known ma
 				pol = rs.SidePolicy[q.id]
 			} else if q.kind == "abort" {
 				pol = rs.AbortPolicy[q.id]
+			} else if q.kind == "unwind" {
+				pol = rs.UnwindPolicy
 			}
 			if r.Status == "unsat" {
+				continue
+			}
+			if r.Status == "sat" && strings.HasPrefix(pol, "obligation:") && q.kind == "unwind" {
+				// the loop can run beyond the bound: confirm natively that it does not finish in time
+				oid := strings.TrimPrefix(pol, "obligation:")
+				vals := modelValues(e, r.Values)
+				fails, _, _, rerr := nativeReplay(spec, rs.Harness, toInts(args), vals, knownList(known))
+				if rerr == nil && contains(fails, "timeout") {
+					if kid := knownWitness(spec.Property, oid, rs.Harness, toInts(args)); kid != "" {
+						res.violations = append(res.violations, violation{obl: oid, replay: "", known: kid})
+					} else {
+						p := storeReplay(spec.Property, oid, rs.Harness, toInts(args), vals, knownList(known))
+						res.violations = append(res.violations, violation{obl: oid, replay: p})
+					}
+				} else {
+					res.inconcl = append(res.inconcl, fmt.Sprintf("UNCONFIRMED %s: the model runs to completion natively (fails=%v)", oid, fails))
+				}
 				continue
 			}
 			if r.Status == "sat" && strings.HasPrefix(pol, "obligation:") {
@@ -720,6 +745,25 @@ func runInstance(ld *sym.Loaded, spec *Spec, rs *RunSpec, args []int64, known ma
 		}
 	}
 	return res
+}
+
+// knownWitness: id of an open known finding recorded for exactly this harness instance.
+func knownWitness(prop, obl, harness string, args []int) string {
+	for _, f := range loadFindings().Findings {
+		if f.Property != prop || f.Status != "open" || f.Obligation != obl || f.Harness != harness || len(f.Args) != len(args) {
+			continue
+		}
+		same := true
+		for i := range args {
+			if f.Args[i] != args[i] {
+				same = false
+			}
+		}
+		if same {
+			return f.ID
+		}
+	}
+	return ""
 }
 
 func knownList(k map[string]bool) []string {
@@ -896,7 +940,7 @@ func nativeReplayFile(spec *Spec, replayPath, tmp string) (fails []string, assum
 	oj, _ := json.Marshal(map[string]interface{}{"Replace": overlay})
 	op := filepath.Join(tmp, "overlay.json")
 	os.WriteFile(op, oj, 0644)
-	cmd := exec.Command("go", "test", "-vet=off", "-count=1", "-overlay", op, "-run", "^TestZZVerifReplay$", "-v", ".")
+	cmd := exec.Command("go", "test", "-vet=off", "-count=1", "-timeout", "25s", "-overlay", op, "-run", "^TestZZVerifReplay$", "-v", ".")
 	cmd.Dir = spec.PackageDir
 	cmd.Env = append(os.Environ(), "GOWORK=off", "GOFLAGS=-mod=mod", "GOPROXY=off", "GOSUMDB=off", "GOTOOLCHAIN=local", "VERIF_REPLAY="+replayPath)
 	b, rerr := cmd.CombinedOutput()
@@ -917,6 +961,10 @@ func nativeReplayFile(spec *Spec, replayPath, tmp string) (fails []string, assum
 		case strings.HasPrefix(l, "VERIF-PANIC"):
 			fails = append(fails, "panic")
 		}
+	}
+	if !done && strings.Contains(out, "test timed out") {
+		fails = append(fails, "timeout")
+		return fails, assumeBad, out, nil
 	}
 	if !done {
 		if strings.Contains(out, "[build failed]") || strings.Contains(out, "cannot find") {
